@@ -12,7 +12,7 @@ CONF = dict(
           'receive buffer, and for NTS: trailing bytes behind the authenticator, bit flips in header / unique id / authenticator header / lengths / nonce / ciphertext, sealed '
           'under the client-to-server or a random key, wrong / previous / one-bit-off unique identifier, missing authenticator, missing identifier, bare 48-byte response, '
           'extension length 0 and 3, 16-byte identifier, nonce lengths 0/12/15/17/32, the genuine response of the previous exchange, authentic packet with malformed '
-          'plaintext; silent peer (deadline); the genuine response from the server address but another port, and from another address with the server\'s port number. The same '
+          'plaintext; silent peer (deadline); the genuine response from the server address but another port (not the queried server: the source check covers address and port), and from another address with the server\'s port number; over SCION the genuine response with another SCION/UDP source port. The same '
           'over SCION (client.MeasureClockOffsetSCION, one client, empty path; kinds scion.hist, scion.auth, scion.nts, scion.ntsauth, scion.allfail, scion.allfailauth): NTP and '
           'NTS payload recipes wrapped into SCION/UDP packets, plus wrong source / destination ISD-AS, wrong source / destination host, source / destination host addresses that resemble the queried one (IPv6 ending or beginning in the '
           'server\'s four IPv4 bytes, IPv4-compatible ::a.b.c.d, the IPv4-mapped form of the server - the same host, accepted -, of another host, with one prefix bit off or the last '
@@ -64,7 +64,7 @@ CONF = dict(
                 'the model is tied to client_ip.go / validation.go / nts.go by replaying generated histories on the real client over loopback sockets every run and comparing '
                 'per-exchange outcome, combined timestamps, offsets and request fields; the oracle is evaluated on the implementation\'s observations'),
     level_note=('Trusted: Coq kernel, hand-written model validated by the correspondence run, extraction, harness (scripted peer, independent NTS field walker, miscreant). '
-                'Crypto symbolic. D-C05a (MeasureClockOffsetSCION returned offset 0 with a nil error when every exchange of its client failed) is fixed in /repo by 3dfc5bf; '
+                'Crypto symbolic. D-C05b (both clients compared only the source address - over SCION ISD-AS and host - of a response with the queried one, never the UDP source port: a response from another port of the server\'s address yielded an offset) is repaired by fix-C05-srcport; the model describes the repaired code (C05_other_port_never_offset; over SCION the port is part of the view\'s source endpoint). D-C05a (MeasureClockOffsetSCION returned offset 0 with a nil error when every exchange of its client failed) is fixed in /repo by 3dfc5bf; '
                 'C05_scion_allfail_pinned_refuted keeps the witness for the old return value and the case kind scion.allfail replays it on every run. Observation (what the code '
                 'does, stated as C05_spao_absent_is_unauthenticated, not a clause of the property): a SCION client with Auth.Enabled accepts a response that carries no authenticator '
                 '(or one with another SPI / algorithm / length) exactly like a client without key - only a present authenticator with a wrong MAC is rejected. No axioms.'),
